@@ -190,6 +190,32 @@ def spec_qm(r, big=False, for_cqm=False):
                 quad=[(i, j, b) for (i, j), b in quad.items()], offset=r.choice([0.0, bias(r)]))
 
 
+def spec_qm_real(r, big=False):
+    """a QM built under `dimod.REAL_INTERACTIONS = True`: at least one REAL variable, squared REAL terms, REAL-REAL and
+    REAL-other interactions (next to whatever `spec_qm` put on the other variables)"""
+    while True:
+        spec = spec_qm(r, big)
+        reals = [i for i, vt in enumerate(spec['vartypes']) if vt[0] == 'REAL']
+        if reals:
+            break
+    n = len(spec['labels'])
+    quad = {(i, j): b for i, j, b in spec['quad']}
+    for i in reals:
+        if r.random() < .7:
+            quad[(i, i)] = bias(r) or 1.5
+    for _ in range(r.choice([0, 1, 2, 4, 7])):
+        i, j = r.choice(reals), r.randrange(n)
+        if i == j or spec['vartypes'][j][0] in ('INTEGER', 'REAL') or r.random() < .5:
+            quad[(min(i, j), max(i, j))] = bias(r)
+    if not any(i == j and i in reals for i, j in quad):
+        quad[(reals[0], reals[0])] = dy(r) or 2.0
+    items = list(quad.items())
+    r.shuffle(items)
+    spec['quad'] = [(i, j, b) for (i, j), b in items]
+    spec['real_interactions'] = True
+    return spec
+
+
 def _spec_expr(r, vts, nmax=4):
     """terms over variable positions: ('l', i, b) | ('q', i, j, b) | ('c', b)"""
     n = len(vts)
@@ -325,6 +351,10 @@ def emit(spec, name='m'):
         for i, j, b in spec['quad']:
             out.append(f"{name}.add_quadratic({L[i]!r}, {L[j]!r}, {b!r})")
         out.append(f"{name}.offset = {spec['offset']!r}")
+        if spec.get('real_interactions'):
+            # a QM reads dimod.REAL_INTERACTIONS when it is constructed: set it around the construction only, and put it back
+            out = (['_ri = dimod.REAL_INTERACTIONS', 'dimod.REAL_INTERACTIONS = True', 'try:'] + ['    ' + l for l in out] +
+                   ['finally:', '    dimod.REAL_INTERACTIONS = _ri'])
     elif k == 'cqm':
         out.append(f"{name} = dimod.ConstrainedQuadraticModel()")
         for l, (vt, lb, ub) in zip(L, spec['vartypes']):
